@@ -97,11 +97,8 @@ func (s Step) timeout(tier string) time.Duration {
 
 func pkg(id string) string { return "./props/" + strings.ToLower(id) }
 
-var plans = map[string]Plan{
-	"C24": {Pkg: pkg("C24"), Steps: []Step{
-		{Run: "TestSelectEndpoint", Quick: 60000, Thorough: 4000000, QShards: 4, TShards: 16},
-	}},
-}
+// plans is filled by the init functions of the plan_cNN.go files.
+var plans = map[string]Plan{}
 
 // runFuzz runs one native fuzz campaign (thorough tier only). A crasher written
 // by the fuzzer becomes the replay file; the fuzz target carries the oracle.
